@@ -21,6 +21,7 @@ Expressions are projected by the structural codec `enc` below (raw fields only; 
   ["deriv",x,b] ["evalat",x,lo,hi,b] ["sum",i,lo,hi,b] ["lim",x,l,b,drt] ["inf",sign] ["skolem",c,[deps]] ["diff",b]
   ["symbol",s] ["oth",text]
 """
+import copy
 import json
 import os
 import random
@@ -211,17 +212,21 @@ def base_ctx():
     return _BASE
 
 
-def apply_rule(out, src, name, ps, pe_j, e_j, conds_j, extra=None):
-    """Build the real objects from projections, apply the real rule, log."""
+def apply_rule(out, src, name, ps, pe_j, e_j, conds_j, extra=None, ctx=None, keypfx="", emit=True):
+    """Build the real objects from projections, apply the real rule, log.  Without ctx: a child of the book context with the
+    stated conditions (what compstate.Calculation.perform_rule builds); with ctx: that context (histories)."""
     ev = {"kind": "rule", "src": src, "rule": name, "base": name.split(":")[-1], "ps": list(ps), "pe": pe_j, "conds": conds_j, "e": e_j}
     if extra:
         ev.update(extra)
+    if not emit:
+        out = Null()
     try:
         e = dec(e_j)
         pe = [dec(p) for p in pe_j]
-        ctx = Context(base_ctx())
-        for c in conds_j:
-            ctx.add_condition(dec(c))
+        if ctx is None:
+            ctx = Context(base_ctx())
+            for c in conds_j:
+                ctx.add_condition(dec(c))
         rule = make_rule(name, ps, pe)
     except Exception as ex:
         ev.update({"outcome": "build", "exc": type(ex).__name__, "r": NONE, "printed": "", "rpo": "none", "rp": NONE})
@@ -229,10 +234,59 @@ def apply_rule(out, src, name, ps, pe_j, e_j, conds_j, extra=None):
         out.emit(ev)
         return None
     ev["text"] = _safe_str(e)
-    ev["key"] = "rule:%s(%s):%s%s" % (name, ",".join(list(ps) + [_safe_str(p) for p in pe]), ev["text"][:200],
-                                       (" if " + ",".join(_safe_str(dec(c)) for c in conds_j)) if conds_j else "")
-    run_rule(out, ev, rule, e, ctx)
+    ev["key"] = "%srule:%s(%s):%s%s" % (keypfx, name, ",".join(list(ps) + [_safe_str(p) for p in pe]), ev["text"][:200],
+                                         (" if " + ",".join(_safe_str(dec(c)) for c in conds_j)) if conds_j else "")
+    if "shared" in ev:          # the conditions held by the shared context before / after the step (informational)
+        ev["cb"] = [enc(c) for c in list(ctx.conds.data)]
+    run_rule(out, ev, rule, e, ctx, after=(lambda: [enc(c) for c in list(ctx.conds.data)]) if "shared" in ev else None)
     return ev
+
+
+class Null:
+    def emit(self, ev):
+        pass
+
+
+def root_ctx(book):
+    """A fresh parent-less context (as rules.check_item / integral.slagle use), with the book's identities if asked for."""
+    if book != "base":
+        return Context()
+    ctx = copy.copy(base_ctx())
+    for k, v in list(ctx.__dict__.items()):
+        if isinstance(v, (list, dict)):
+            setattr(ctx, k, copy.copy(v))
+    ctx.conds = Conditions()
+    ctx.substs = {}
+    return ctx
+
+
+def run_history(out, src, fam, conds_j, steps, root, book, idents, emit_from=0):
+    """Several rule applications (on different expressions) in ONE context: parent-less and shared when root, else a child
+    of the book context.  idents: [[equation, [conditions]]] definite-integral identities of a scratch book."""
+    if root:
+        ctx = root_ctx(book)
+    else:
+        ctx = Context(base_ctx() if book == "base" else Context())
+    try:
+        for c in conds_j:
+            ctx.add_condition(dec(c))
+        for eq_j, cs_j in idents:
+            ctx.add_definite_integral(dec(eq_j), Conditions([dec(c) for c in cs_j]))
+    except Exception as ex:
+        out.emit({"kind": "exload", "src": src, "key": "ctx:" + json.dumps([conds_j, idents], separators=(",", ":"))[:300], "exc": type(ex).__name__})
+        return
+    summ = []
+    for k, st in enumerate(steps):
+        try:
+            summ.append("%s(%s):%s" % (st["rule"], ",".join(list(st["ps"]) + [_safe_str(dec(p)) for p in st["pe"]]), _safe_str(dec(st["e"]))[:80]))
+        except Exception:
+            summ.append(st["rule"])
+    tag = "" if not idents else "with %s " % "; ".join("%s if %s" % (_safe_str(dec(q[2])), ",".join(_safe_str(dec(c)) for c in cs)) for q, cs in idents)
+    for k, st in enumerate(steps):
+        pfx = "%s[%s%s]#%d " % (fam, tag, " ; ".join(summ[:k]), k) if (k or idents) else (fam + " " if fam != "calc" else "")
+        apply_rule(out, src, st["rule"], st["ps"], st["pe"], st["e"], conds_j,
+                   {"fam": fam, "shared": bool(root), "k": k, "nsteps": len(steps), "book": book, "idents": idents, "prefix": steps[:k]},
+                   ctx=ctx, keypfx=pfx[:400], emit=(k >= emit_from))
 
 
 def _safe_str(x):
@@ -242,15 +296,19 @@ def _safe_str(x):
         return "<unprintable>"
 
 
-def run_rule(out, ev, rule, e, ctx):
+def run_rule(out, ev, rule, e, ctx, after=None):
     try:
         r = quiet(rule.eval, e, ctx)
+        if after:
+            ev["ca"] = after()
     except RecursionError:
         ev.update({"outcome": "exc", "exc": "RecursionError", "r": NONE, "printed": "", "rpo": "none", "rp": NONE})
         out.emit(ev)
         return None
     except Exception as ex:
         ev.update({"outcome": "exc", "exc": type(ex).__name__, "r": NONE, "printed": "", "rpo": "none", "rp": NONE})
+        if after:
+            ev["ca"] = after()
         out.emit(ev)
         return None
     if not isinstance(r, E.Expr):
@@ -302,6 +360,10 @@ def mode_replay(vec, outp):
             continue
         v = json.loads(ln)
         conds = v.get("conds", [])
+        if "steps" in v:          # a history (C19_Ctx): the whole prefix is re-executed in one context, the last step is logged
+            run_history(out, "tlc", v.get("fam", "hist"), conds, v["steps"], v.get("root", False), v.get("book", "base"),
+                        v.get("idents", []), emit_from=len(v["steps"]) - 1)
+            continue
         ev = apply_rule(out, "tlc", v["rule"], v.get("ps", []), v.get("pe", []), v["e"], conds, {"step": v.get("step", 0)})
         for j in ([v["e"]] if v.get("step", 0) == 0 else []) + ([ev["r"]] if ev and ev.get("outcome") == "ok" and v.get("step", 0) <= 1 else []):
             k = json.dumps([j, conds])
@@ -609,11 +671,120 @@ def mode_directed(out):
             norm_event(out, "directed", ev["r"], c_j)
 
 
+# scratch book: definite-integral identities inside the exactly evaluable fragment whose closed form is right exactly where
+# their side conditions hold (abs(t) / t is the sign of t)
+SCRATCH = [
+    ("(INT x:[0,b]. (x + a) ^ 2) = abs(a) / a * (abs(b) * (b ^ 2 + 3 * a * b + 3 * a ^ 2) / 3)", ["a > 0", "b > 0"]),
+    ("(INT x:[a,b]. x ^ 2) = abs(b) * b ^ 2 / 3 - abs(a) * a ^ 2 / 3", ["a > 0", "b > 0"]),
+    ("(INT x:[a,b]. x ^ 2) = abs(b) * b ^ 2 / 3 + abs(a) * a ^ 2 / 3", ["a < 0", "b > 0"]),
+    ("(INT x:[a,b]. (x + c) ^ 2) = abs(a) / a * (abs(b) / b) * (abs(c) / c) * (((b + c) ^ 3 - (a + c) ^ 3) / 3)", ["a > 0", "b > 0", "c > 0"]),
+    ("(INT x:[a,b]. x ^ 3) = abs(b) * b ^ 3 / 4 - abs(a) * a ^ 3 / 4", ["b > 0", "a > 0"]),
+    ("(INT x:[0,a]. (b * x + c) ^ 2) = abs(b) / b * (abs(a) / a) * (((b * a + c) ^ 3 - c ^ 3) / (3 * abs(b)))", ["a > 0", "b > 0", "c != 0"]),
+]
+
+
+def rand_ident(out, rnd):
+    eq_s, cs = rnd.choice(SCRATCH)
+    eq = quiet(parser.parse_expr, eq_s)
+    params = sorted(eq.lhs.get_vars())
+    names = dict(zip(["a", "b", "c"], ["p", "q", "r"]))
+    inst, conds = {}, []
+    for pn in params:
+        k = rnd.random()
+        if k < 0.55:
+            inst[pn] = E.Var(names.get(pn, pn + "1"))
+            k2 = rnd.random()
+            if k2 < 0.35:
+                conds.append(E.Op(">", inst[pn], E.Const(0)))
+            elif k2 < 0.6:
+                conds.append(E.Op("<", inst[pn], E.Const(0)))
+            elif k2 < 0.7:
+                conds.append(E.Op("!=", inst[pn], E.Const(0)))
+            elif k2 < 0.8:
+                conds.append(E.Op(">", inst[pn], E.Const(rnd.choice([-1, 1, 2]))))
+        else:
+            inst[pn] = E.Const(rnd.choice([-2, -1, 1, 2, 3, Fraction(1, 2), Fraction(-3, 2)]))
+    e = eq.lhs
+    for pn, t in inst.items():
+        e = e.subst(pn, t)
+    rnd.shuffle(conds)
+    step = {"e": enc(e), "rule": rnd.choice(["DefiniteIntegralIdentity", "DefiniteIntegralIdentity", "Sub:DefiniteIntegralIdentity"]), "ps": [], "pe": []}
+    run_history(out, "rand", "ident", [enc(c) for c in conds], [step], False, "none",
+                [[enc(eq), [enc(quiet(parser.parse_expr, c)) for c in cs]]])
+
+
+def rand_history(out, rnd, g):
+    """2-4 rule applications on different expressions in one shared parent-less context"""
+    params = rnd.choice([[], [], ["a"]])
+    conds = []
+    if params and rnd.random() < 0.5:
+        conds = [enc(E.Op(rnd.choice([">", "<", "!="]), E.Var(params[0]), E.Const(0)))]
+    steps = []
+    for k in range(rnd.choice([2, 2, 3, 4])):
+        kk = rnd.random()
+        if kk < 0.12:        # a free variable named like a variable of integration
+            v = rnd.choice(["x", "t"])
+            e = rnd.choice([E.Op("+", E.Fun("abs", E.Var(v)), E.Const(1)), E.Op("*", E.Fun("abs", E.Var(v)), E.Var(v)),
+                            E.Op("/", E.Fun("abs", E.Op("-", E.Var(v), E.Const(1))), E.Const(2))])
+            steps.append({"e": enc(e), "rule": rnd.choice(["FullSimplify", "Simplify"]), "ps": [], "pe": []})
+            continue
+        var = rnd.choice(["x", "x", "t"])
+        lo, hi = rnd.choice([(0, 1), (-1, 1), (1, 2), (-2, 0), (2, 0), (-1, 2), (0, 3), (1, -1)])
+        e = E.Integral(var, E.Const(lo), E.Const(hi), g.polyexpr([var, var] + params, rnd.choice([1, 2])))
+        if kk < 0.55:
+            c = rnd.choice([0, 0, 1, -1])
+            u = E.Op("^", E.Var(var) if c == 0 else E.Op("-", E.Var(var), E.Const(c)), E.Const(2))
+            if rnd.random() < 0.3:
+                u = E.Op("+", u, E.Const(rnd.choice([1, 2])))
+            steps.append({"e": enc(e), "rule": "Substitution", "ps": ["u"], "pe": [enc(u)]})
+        else:
+            name, ps, pe = rnd.choice(rule_choices(rnd, g, e, params))
+            steps.append({"e": enc(e), "rule": name, "ps": ps, "pe": [enc(p) for p in pe]})
+    run_history(out, "rand", "hist", conds, steps, True, "base", [])
+
+
+def rand_limit(out, rnd, g):
+    """limit at infinity of a rational function, with decaying terms of both signs and reciprocals"""
+    x = "x"
+    def decay():
+        a = rnd.choice([1, 1, 2, 3, Fraction(1, 2)])
+        i = rnd.choice([1, 2, 3])
+        t = E.Op("/", E.Const(a), E.Var(x) if i == 1 else E.Op("^", E.Var(x), E.Const(i)))
+        return t
+    def dsum():
+        t = decay()
+        for _ in range(rnd.choice([1, 1, 2])):
+            t = E.Op(rnd.choice(["+", "-", "-"]), t, decay())
+        if rnd.random() < 0.25:
+            t = E.Op("+", t, E.Const(rnd.choice([-1, 1, 2])))
+        return t
+    k = rnd.random()
+    if k < 0.35:
+        body = E.Op("/", E.Const(rnd.choice([1, -1, 2])), dsum())
+    elif k < 0.45:
+        body = E.Op("^", dsum(), E.Const(rnd.choice([-1, -2, 2])))
+    elif k < 0.6:
+        body = dsum()
+    elif k < 0.85:
+        body = E.Op("/", g.polyexpr([x, x], 2), g.polyexpr([x, x], 2))
+    else:
+        body = E.Op(rnd.choice(["+", "-", "*"]), E.Op("/", g.polyexpr([x], 1), g.polyexpr([x, x], 1)), dsum())
+    if rnd.random() < 0.15:
+        body = E.Op("+", body, E.Var("a"))
+    e = E.Limit(x, E.POS_INF, body)
+    name = rnd.choice(["ReduceLimit", "FullSimplify", "Sub:ReduceLimit"])
+    apply_rule(out, "rand", name, [], [], enc(e), [], {"fam": "lim"})
+
+
 def mode_rand(outp, n, seed):
     rnd = random.Random(seed * 7919 + 19)
     g = Gen(rnd)
     out = Out(outp)
     mode_directed(out)
+    for i in range(n // 3):
+        rand_history(out, rnd, g)
+        rand_ident(out, rnd)
+        rand_limit(out, rnd, g)
     for i in range(n):
         params = rnd.choice([[], [], ["a"], ["a"], ["a", "b"]])
         conds = []
@@ -789,6 +960,10 @@ def mode_event(inp, outp):
                 e2 = json.loads(l2)
                 if e2.get("key") == e["key"]:
                     out.emit(e2)
+        elif e["kind"] == "rule" and "prefix" in e:
+            steps = list(e["prefix"]) + [{"e": e["e"], "rule": e["rule"], "ps": e["ps"], "pe": e["pe"]}]
+            run_history(out, e.get("src", "replay"), e.get("fam", "hist"), e["conds"], steps, e.get("shared", False), e.get("book", "base"),
+                        e.get("idents", []), emit_from=len(steps) - 1)
         elif e["kind"] == "rule":
             apply_rule(out, e.get("src", "replay"), e["rule"], e["ps"], e["pe"], e["e"], e["conds"])
         elif e["kind"] == "norm":
